@@ -157,10 +157,17 @@ func ParseNaluType(v uint8) uint8 {
 	return v & 0x1f
 }
 
-func ParseSliceType(nalu []byte) (uint8, error) {
+func ParseSliceType(nalu []byte) (sliceTyp uint8, err error) {
 	if len(nalu) < 2 {
 		return 0, nazaerrors.Wrap(base.ErrShortBuffer)
 	}
+
+	// 见ParseSps中的说明
+	defer func() {
+		if r := recover(); r != nil {
+			sliceTyp, err = 0, nazaerrors.Wrap(base.ErrAvc)
+		}
+	}()
 
 	br := nazabits.NewBitReader(nalu[1:])
 
